@@ -346,5 +346,6 @@ def replay(path):
     buf = bytes.fromhex(case["bytes"]["hex"])
     n = first_pickle_len(buf)
     p = fk.Pickled.load(io.BytesIO(buf))
-    print("first pickle", n, "bytes; dumps()", len(p.dumps()), "equal:", p.dumps() == buf[:n])
-    return 0
+    same = p.dumps() == buf[:n]
+    print("first pickle", n, "bytes; dumps()", len(p.dumps()), "equal:", same)
+    return 0 if same else 1
